@@ -133,6 +133,31 @@ def run_array(case):
             rc = a.cmd("check", *extra, variant=variant)
             if rc.rc != 0:
                 res["violations"].append(("reference-array-check-fails-after-fix", "%s lost %s: check rc=%s" % (name, list(sub), rc.rc), rep2))
+        # the user adds a brand new, empty data disk to the configuration: the reference-written content has no record for
+        # it; everything must still load, verify and be repairable (the new disk gets a free position)
+        tpl.restore()
+        newd = a.add_disk()
+        rep3 = dict(rep, added_disk=a.disk_names[newd])
+        ok3 = True
+        for cmd in ("status", "check"):
+            rr = a.cmd(cmd, *extra, variant=variant)
+            if rr.rc != 0:
+                res["violations"].append(("reference-array-does-not-load-with-a-new-disk-configured", "%s: %s rc=%s %s" % (name, cmd, rr.rc, rr.err[-200:].decode("latin-1")), rep3))
+                ok3 = False
+                break
+        if ok3:
+            sub = tuple(rng.sample([x for x in devs if x[0] == "data"], min(a.nlev, len([x for x in devs if x[0] == "data"]))))
+            for kind, i in sub:
+                scen.wipe_disk(a, i)
+            rf = a.cmd("fix", *extra, variant=variant)
+            n += 1
+            truth3 = {k_: v_ for k_, v_ in truth.items()}
+            pr = compare_truth(a, truth3) if rf.rc == 0 else None
+            if rf.rc != 0:
+                res["violations"].append(("reference-array-not-repairable", "%s with a new disk configured, lost %s: fix rc=%s %s" % (name, list(sub), rf.rc, rf.err[-300:].decode("latin-1")), rep3))
+            elif pr:
+                res["violations"].append(("reference-array-repaired-wrong:" + pr[0][2], "%s with a new disk configured, lost %s: %s" % (name, list(sub), evidence.jsonable(pr[:3])), rep3))
+            res["counters"]["arrays_with_new_disk_configured"] = 1
         res["counters"]["subsets"] = n
         res["nontrivial"] = n > 0
         res["n"] = n + 1
